@@ -359,3 +359,13 @@ Example C13_tree_nonvacuous :
   sl_program 0 T2 = false.
 Proof. cbv zeta. repeat split; vm_compute; reflexivity. Qed.
 Print Assumptions C13_tree_nonvacuous.
+
+Theorem C13_tree_pass_machine :
+  forall p0 T, sl_program p0 T = true ->
+  forall o cores m, cores <> [] -> NoDup cores ->
+  let phs := map (filter specific) (split_phases [] (rrunl o (outl (barriers (flatl p0 false 0 T)) T) [])) in
+  (forall ph op, In ph phs -> In op ph -> In (o_core op) cores) ->
+  forall cfg, steps (streams_of cores phs, m) cfg ->
+    (all_finished (fst cfg) = true /\ meq (snd cfg) (exec (concat phs) m)) \/ (exists cfg', step cfg cfg').
+Proof. exact tree_pass_machine. Qed.
+Print Assumptions C13_tree_pass_machine.
